@@ -295,7 +295,7 @@ def normalize(scn, raw):
         elif i in ret_skip:
             continue
         if n == "adopt.call":
-            out.append({"e": "AdoptCall", "p": e["p"]})
+            out.append({"e": "AdoptCall", "p": e["p"], "from": "cleanup" if str(e.get("ctx", "")).startswith("cleanup:") else "outside"})
         elif n == "adopt.ret":
             out.append({"e": "AdoptRet", "p": e["p"], "ok": bool(e["ok"]), "exc": e.get("exc", "")})
         elif n == "svc.new":
@@ -542,6 +542,10 @@ def fingerprint(name, scn, ev, idx):
                 finished.add(x["p"])
         open_ = [p for p in started - finished if allp.get(p, {}).get("flavour") != "threading"]
         fp["late_adopt"] = bool(open_) and all(adopted_at.get(p, -1) > trig for p in open_)
+        # ... and who adopted them: somebody outside (a thread, a payload step) or the cleanup
+        # of a payload that was being cancelled?
+        src = {x["p"]: x.get("from", "outside") for x in ev if x["e"] == "AdoptCall"}
+        fp["adopter"] = "cleanup" if any(src.get(p) == "cleanup" for p in open_) else "outside"
     if e.get("e") == "AdoptRet" and not e.get("ok", True):
         fp["exception"] = e.get("exc", "")
         p = e.get("p")
